@@ -128,6 +128,14 @@ def _flat_and(v: ast.AST) -> List[ast.AST]:
     if isinstance(v, ast.Call) and src(v.func) == 'all' and len(v.args) == 1 and \
             isinstance(v.args[0], (ast.List, ast.Tuple)):
         return [x for y in v.args[0].elts for x in _flat_and(y)]
+    if isinstance(v, ast.Call) and src(v.func) == 'all' and len(v.args) == 1 and \
+            isinstance(v.args[0], (ast.GeneratorExp, ast.ListComp)) and \
+            isinstance(v.args[0].elt, ast.BoolOp) and isinstance(v.args[0].elt.op, ast.And):
+        # all(A and B for o in C)  ==  all(A for o in C) and all(B for o in C)
+        g = v.args[0]
+        return [x for part in g.elt.values
+                for x in _flat_and(ast.Call(ast.Name('all', ast.Load()),
+                                            [ast.GeneratorExp(part, g.generators)], []))]
     return [v]
 
 
@@ -172,7 +180,9 @@ def classify_facet(c: ast.AST, kind: str, index=None) -> Optional[str]:
             return 'shape'
     if isinstance(c, ast.Call) and isinstance(c.func, ast.Attribute) and \
             c.func.attr == 'issubset' and len(c.args) == 1:
-        arg = src(c.args[0])
+        from ..setden import set_den
+        d0 = set_den(c.args[0])
+        arg = next(iter(d0[0])) if d0 is not None and len(d0[0]) == 1 else src(c.args[0])
         from ..cellimage import cells_image
         img = cells_image(index, c.func.value) if index is not None else None
         if img is not None and img[0] == 'X.grid':
@@ -181,6 +191,23 @@ def classify_facet(c: ast.AST, kind: str, index=None) -> Optional[str]:
                                             else 'self._grid_object_types'):
                 return 'types'
             if elt == 'O.color' and arg == 'self.colors':
+                return 'colors'
+    if isinstance(c, ast.Call) and src(c.func) == 'all' and len(c.args) == 1 and \
+            isinstance(c.args[0], (ast.GeneratorExp, ast.ListComp)) and \
+            isinstance(c.args[0].elt, ast.Compare) and len(c.args[0].elt.ops) == 1 and \
+            isinstance(c.args[0].elt.ops[0], ast.In) and index is not None:
+        # all(f(o) in S for o in <cells>)  ==  {f(o) for o in <cells>}.issubset(S)
+        from ..cellimage import cells_image
+        from ..setden import set_den
+        g = c.args[0]
+        img = cells_image(index, ast.GeneratorExp(g.elt.left, g.generators))
+        d = set_den(g.elt.comparators[0])
+        if img is not None and img[0] == 'X.grid' and d is not None:
+            elt = src(img[1])
+            if elt == 'type(O)' and d[0] == {'self.object_types' if kind == 'state'
+                                             else 'self._grid_object_types'}:
+                return 'types'
+            if elt == 'O.color' and d[0] == {'self.colors'}:
                 return 'colors'
     if s == 'X.grid.area.contains(X.agent.position)':
         return 'position'
@@ -249,39 +276,60 @@ def membership(index: RepoIndex, rep, rule: str) -> None:
                           + (f'{size}={bad[0]}, {axis}={bad[1]} is '
                              f'{"accepted" if bad[2] else "rejected"}' if bad else ''),
                           f'obs {axis} bounds half-open')
-    # constructor facts the facets rely on
+    # constructor facts the facets rely on (read as sets, not as spellings)
+    from ..setden import set_den
     for cname in ('StateSpace', 'ObservationSpace'):
         init = index.func(SPACES, f'{cname}.__init__')
         w = walk_function(init.node)
-        st = {src(e.target): src(e.value) for e in w.events if e.kind == 'attrstore'}
-        rep.check(st.get('self.colors') in ('set(colors) | {Color.NONE}',
-                                            '{Color.NONE} | set(colors)'), rule, SPACES,
-                  f'{cname}.__init__', init.node.lineno, st.get('self.colors', ''),
-                  'the declared colours do not always include Color.NONE (colourless objects '
-                  'would be rejected)', f'{cname} colours include NONE')
-        rep.check(st.get('self._agent_object_types') in (
-            'set(object_types) | {NoneGridObject}', '{NoneGridObject} | set(object_types)'),
-            rule, SPACES, f'{cname}.__init__', init.node.lineno,
-            st.get('self._agent_object_types', ''),
-            'the held-item types do not include NoneGridObject (an empty hand would be '
-            'rejected)', f'{cname} held types include None')
+        st: Dict[str, ast.AST] = {}
+        for e in w.events:
+            if e.kind == 'attrstore':
+                from ..inline import inline_pure_exprs
+                st[src(e.target)] = inline_pure_exprs(index, init.module, init.cls,
+                                                      w.expand(e.value))
+
+        def den(attr: str):
+            v = st.get(attr)
+            # attributes stored earlier stand for their value (`set(self.object_types) | ..`)
+            return None if v is None else set_den(
+                v, lambda t: st.get(t) if t != attr and t.startswith('self.') else None)
+        wanted = [('self.colors', {'colors', 'elt:Color.NONE'},
+                   'the declared colours do not always include Color.NONE (colourless objects '
+                   'would be rejected)', f'{cname} colours include NONE'),
+                  ('self._agent_object_types', {'object_types', 'elt:NoneGridObject'},
+                   'the held-item types do not include NoneGridObject (an empty hand would be '
+                   'rejected)', f'{cname} held types include None')]
         if cname == 'ObservationSpace':
-            rep.check(st.get('self._grid_object_types') in (
-                'set(object_types) | {Hidden}', '{Hidden} | set(object_types)'), rule, SPACES,
-                f'{cname}.__init__', init.node.lineno, st.get('self._grid_object_types', ''),
-                'observation cell types do not include Hidden', 'obs types include Hidden')
+            wanted.append(('self._grid_object_types', {'object_types', 'elt:Hidden'},
+                           'observation cell types do not include Hidden',
+                           'obs types include Hidden'))
+        for attr, atoms, msg, label in wanted:
+            d = den(attr)
+            if d is None:
+                raise AnalysisError(f'{cname}.__init__: `{attr} = '
+                                    f'{src(st[attr])[:80] if attr in st else "<missing>"}` is '
+                                    f'outside the set expressions understood')
+            rep.check(d[0] == atoms, rule, SPACES, f'{cname}.__init__', init.node.lineno,
+                      src(st[attr]), msg + f' -- it denotes {sorted(d[0])}', label)
+            rep.check(d[1], rule, SPACES, f'{cname}.__init__', init.node.lineno,
+                      src(st[attr]), f'`{attr}` can hold an element twice: the compact '
+                      f'representations number its elements, a repeated one leaves a gap and '
+                      f'pushes the largest index past the declared bound',
+                      f'{cname} {attr} duplicate-free')
     # Area.contains is two-sided on both coordinates
     f = index.func('gym_gridverse/geometry.py', 'Area.contains')
     b = f.body()
     p = f.node.args.args[1].arg
     bad = None
-    if len(b) == 1 and isinstance(b[0], ast.Return):
+    from ..inline import pure_body_expr
+    body_e = pure_body_expr(f.node)
+    if body_e is not None:
         for y, x in itertools.product(range(-2, 6), repeat=2):
             env = {'self.ymin': 0, 'self.ymax': 2, 'self.xmin': 1, 'self.xmax': 3,
                    f'{p}.y': y, f'{p}.x': x, 'self.ys[0]': 0, 'self.ys[1]': 2,
                    'self.xs[0]': 1, 'self.xs[1]': 3}
             try:
-                got = bool(int_ev(b[0].value, env))
+                got = bool(int_ev(body_e, env))
             except CannotEval as e:
                 raise AnalysisError(f'Area.contains outside the grammar: {e}')
             if got != (0 <= y <= 2 and 1 <= x <= 3) and bad is None:
@@ -289,17 +337,50 @@ def membership(index: RepoIndex, rep, rule: str) -> None:
     else:
         raise AnalysisError('Area.contains is not a single return')
     rep.check(bad is None, rule, 'gym_gridverse/geometry.py', 'Area.contains', f.node.lineno,
-              src(b[0].value), 'Area.contains is not the two-sided test on both coordinates: '
+              src(body_e), 'Area.contains is not the two-sided test on both coordinates: '
               + (f'area ys=(0,2) xs=(1,3), position {bad[:2]} -> {bad[2]}' if bad else ''),
               'Area.contains two-sided')
     # Grid.area spans exactly the grid
+    from ..affine import Aff, NonAffine, aff_of, dict_env
+    from ..inline import inline_methods_by_name
     gi = index.func('gym_gridverse/grid.py', 'Grid.__init__')
     w = walk_function(gi.node)
-    st = {src(e.target): src(e.value) for e in w.events if e.kind == 'attrstore'}
-    rep.check(st.get('self.area') == 'Area((0, self.shape.height - 1), (0, self.shape.width - 1))'
-              and st.get('self.shape') == 'Shape(len(objects), len(objects[0]))', rule,
+    st2: Dict[str, ast.AST] = {}
+    for e in w.events:
+        if e.kind == 'attrstore':
+            st2[src(e.target)] = inline_methods_by_name(index, w.expand(e.value), new_only=True)
+    objp = gi.node.args.args[1].arg
+    H, W = Aff.sym('H'), Aff.sym('W')
+    base = {f'len({objp})': H, f'len({objp}[0])': W, f'len(self.objects)': H,
+            'len(self.objects[0])': W}
+
+    def _args(call: ast.AST, cls_name: str, names) -> Optional[List[ast.AST]]:
+        if not (isinstance(call, ast.Call) and src(call.func) == cls_name):
+            return None
+        got = dict(zip(names, call.args))
+        for k in call.keywords:
+            got[k.arg] = k.value
+        return [got[n] for n in names] if set(got) == set(names) else None
+    ok = False
+    shape_args = _args(st2.get('self.shape'), 'Shape', ['height', 'width'])
+    area_args = _args(st2.get('self.area'), 'Area', ['ys', 'xs'])
+    if shape_args is None or area_args is None or \
+            not all(isinstance(a, ast.Tuple) and len(a.elts) == 2 for a in area_args):
+        raise AnalysisError('Grid.__init__: shape / area are not built by Shape(h, w) and '
+                            f'Area((y0, y1), (x0, x1)): {src(st2.get("self.shape", ast.Constant(None)))}; '
+                            f'{src(st2.get("self.area", ast.Constant(None)))}')
+    try:
+        sh = [aff_of(a, dict_env(base)) for a in shape_args]
+        env2 = dict(base)
+        env2.update({'self.shape.height': sh[0], 'self.shape.width': sh[1]})
+        ar = [[aff_of(x, dict_env(env2)) for x in a.elts] for a in area_args]
+        ok = sh == [H, W] and ar == [[Aff.const(0), H - 1], [Aff.const(0), W - 1]]
+    except NonAffine as ex:
+        raise AnalysisError(f'Grid.__init__: shape / area bound `{ex}` is not affine in the '
+                            f'numbers of rows and columns')
+    rep.check(ok, rule,
               'gym_gridverse/grid.py', 'Grid.__init__', gi.node.lineno,
-              f'{st.get("self.shape")}; {st.get("self.area")}',
+              f'{src(st2["self.shape"])}; {src(st2["self.area"])}',
               'Grid.area is not ((0, height-1), (0, width-1)) of the stored objects',
               'grid area spans the grid')
 
